@@ -200,7 +200,8 @@ def run_sweep(ck: common.Check, prop: str, tier: str):
                 s = inst.m["astat"]
                 st = inst.ac_status[spec.number]
                 import dataclasses
-                mode = [s.AcMode.COOL, s.AcMode.HEAT, s.AcMode.AUTO, s.AcMode.AUTO_COOL][ci % 4]
+                # the reported mode runs over the five that matter for the limits, independently of the limit set (ci % 4)
+                mode = [s.AcMode.COOL, s.AcMode.HEAT, s.AcMode.AUTO, s.AcMode.AUTO_COOL, s.AcMode.AUTO_HEAT][(ci // 2) % 5]
                 T.push_ac_status(rig, dataclasses.replace(st, mode=mode))
                 t = inst.m["tstat"]
                 T.push_timer(rig, t.AcTimerStatusData(spec.number, t.AcTimerState(False, 6 + ci % 5, 15), t.AcTimerState(ci % 2 == 0, 22, 45)))
